@@ -89,6 +89,12 @@ def _oracle(inp, conds, extra=()):
     return sem, Answers(sem, inp["mode"] == "extended")
 
 
+def _has_ranking(ans):
+    """consistent for the mode: a tolerance partition exists (the empty base included: its partition is
+    empty and kz is 0 everywhere; only the inference OPERATORS refuse an empty base, C06)"""
+    return getattr(ans, "partition", None) is not None
+
+
 def _exc(e):
     return f"EXC {type(e).__name__}: {str(e)[:300]}"
 
@@ -107,7 +113,7 @@ def judge(inp):
 
         queries = [mkcond(*split_text(t)) for t in inp.get("queries", [])]
         sem, ans = _oracle(inp, conds, [f for q in queries for f in (q.antecedence, q.consequence)])
-        assert ans.accepted, "checker: base not accepted in this mode"
+        assert _has_ranking(ans), "checker: base not consistent in this mode"
         want, top = _expected_ranks(ans, sem, order)
 
         if check == "lazy-order":
@@ -344,7 +350,7 @@ def _case(args):
     any_mode = False
     for mode in ("strict", "extended"):
         ans = Answers(sem, mode == "extended")
-        if not ans.accepted:
+        if not _has_ranking(ans):
             continue
         any_mode = True
         ext_flag = True if mode == "extended" else rng.choice([None, False])
@@ -359,7 +365,7 @@ def _case(args):
         do(dict(cfg, check="all-at-once"), _fp(fp_base, mode, "all"))
         do(dict(cfg, check="base-accept", precompute=rng.random() < 0.5), _fp(fp_base, mode, "base-accept"))
         qs = [q for q in queries if sem.q(q)[0] & ans.feas][:6]
-        if qs:
+        if qs and conds:  # the operator refuses an empty base (C06), nothing to compare with
             do(
                 dict(cfg, check="queries", queries=[str(q) for q in qs], precompute=rng.random() < 0.5),
                 _fp(fp_base, mode, "queries", sorted((tuple(sorted(sem.q(q)[1])), tuple(sorted(sem.q(q)[2]))) for q in qs)),
@@ -431,6 +437,8 @@ def build_cases(tier, seed):
         bb_sig = list(sig) if rng.random() < 0.5 else list(reversed(sig))
         facts = rng.sample(FACTS2, 3)
         cases.append((list(sig), bb_sig, {k: split_text(str(c)) for k, c in conds.items()}, [split_text(str(q)) for q in qs], facts, exhaustive, o2 or 0, rng.randrange(10**9)))
+    # the empty base: consistent, kz = 0 everywhere
+    cases.append((list(ATOMS2), list(ATOMS2), {}, [split_text(str(q)) for q in distinct_queries(s2_queries(rng, False, 6))], [[], ["a"], ["a", "!a"]], exhaustive, o2 or 0, rng.randrange(10**9)))
     for _ in range(n3):
         sig, conds = s3_base(rng, consts=0.1)
         qs = distinct_queries([rnd_conditional(rng, sig, 2, 0.08) for _ in range(12)])
